@@ -56,7 +56,7 @@ def cases(draw, allow_outside=True):
     ops = []
     for _ in range(draw(st.integers(1, 12))):
         kind = draw(st.sampled_from(["add_array", "add_array", "add_clusters", "add_clusters", "add_clusters", "read_array",
-                                     "read_frame", "remove", "remove_all", "reset", "restore"]))
+                                     "read_frame", "remove", "remove_all", "reset", "restore", "resize"]))
         if kind == "add_array":
             ops.append({"op": kind, "dtype": draw(st.sampled_from(["float64", "float64", "float32", "float16"])),
                         "kind": draw(st.sampled_from(["zero", "uniform", "sparse", "random"])),
@@ -73,11 +73,36 @@ def cases(draw, allow_outside=True):
                 cl.append({"number": draw(st.one_of(st.integers(0, 1000).map(float), st.floats(0.0, 1e6))), "v": pv, "h": ph})
             # 'object': columns of Python floats, as pyxel's own charge_deposition(particle_direction='orthogonal') hands them over
             ops.append({"op": kind, "clusters": cl, "coltype": draw(st.sampled_from(["float64"] * 5 + ["object"]))})
+        elif kind == "resize":
+            # the pixel sizes of the same geometry object are changed (what a sweep over detector.geometry.pixel_vert_size does), after a reset
+            ops.append({"op": kind, "vsize": draw(size), "hsize": draw(size)})
         elif kind == "remove":
             ops.append({"op": kind, "idx": draw(st.lists(st.integers(0, 30), min_size=1, max_size=4))})
         else:
             ops.append({"op": kind})
     return {"rows": rows, "cols": cols, "vsize": draw(size), "hsize": draw(size), "ops": ops}
+
+
+@st.composite
+def resize_histories(draw):
+    """A second life of the same detector object with other pixel sizes: array + clusters, read, resize, array + clusters, read."""
+    base = draw(cases(allow_outside=False))
+    size = st.one_of(st.sampled_from(SIZES), st.floats(1e-3, 1000.0))
+
+    def arr():
+        return {"op": "add_array", "dtype": "float64", "kind": draw(st.sampled_from(["uniform", "sparse", "random"])),
+                "level": draw(st.integers(1, 2000)), "seed": draw(st.integers(0, 10**6))}
+
+    def clus():
+        cl = [{"number": float(draw(st.integers(1, 1000))), "v": dict(draw(_pos()), cls="interior"), "h": dict(draw(_pos()), cls="interior")}
+              for _ in range(draw(st.integers(1, 3)))]
+        return {"op": "add_clusters", "clusters": cl, "coltype": "float64"}
+
+    first = draw(st.permutations([arr(), clus()]))
+    second = draw(st.permutations([arr(), clus()]))
+    between = draw(st.sampled_from([[], [{"op": "reset"}], [{"op": "restore"}]]))
+    base["ops"] = list(first) + [{"op": "read_array"}] + between + [{"op": "resize", "vsize": draw(size), "hsize": draw(size)}] + list(second) + [{"op": "read_array"}]
+    return base
 
 
 def _position(p, n_pix, size):
@@ -145,7 +170,7 @@ def run_ops(case, rec):
     ch = det.charge
     acc = np.zeros((rows, cols))  # array-mode accumulator
     clusters = None  # None = array mode; else list of [label, number, row|None, col|None]
-    seen = {"array_add": False, "cluster_add": False, "read_between": False, "special": False, "object_columns": False, "restored": False}
+    seen = {"array_add": False, "cluster_add": False, "read_between": False, "special": False, "object_columns": False, "restored": False, "resized": False}
 
     def expected():
         if clusters is None:
@@ -181,6 +206,12 @@ def run_ops(case, rec):
                     clusters.extend(to_clusters_from_array(a))
                     relabel(clusters)
                 seen["array_add"] = True
+            elif o == "resize":
+                ch.empty()
+                clusters, acc = None, np.zeros((rows, cols))
+                det.geometry.pixel_vert_size, det.geometry.pixel_horz_size = op["vsize"], op["hsize"]
+                vs, hs = op["vsize"], op["hsize"]
+                seen["resized"] = True
             elif o == "restore":
                 # the detector is rebuilt from its own dictionary form (what a save / load or a copy through to_dict does): same charge, and the
                 # history continues on the restored object
@@ -290,6 +321,7 @@ def plan(tier):
     return [
         Part(name="ops", kind="gen", strategy=lambda: cases(allow_outside=False), examples=25 if q else 300, label="inside_only"),
         Part(name="ops", kind="gen", strategy=cases, examples=10 if q else 150, label="with_outside_clusters"),
+        Part(name="ops", kind="gen", strategy=resize_histories, examples=8 if q else 100, label="second_life_with_other_pixel_sizes"),
     ]
 
 
